@@ -120,6 +120,58 @@ def check_dbi_normalisation(ctx, ck, rule='R-DEP.dbi-normalised'):
     return r
 
 
+def check_row_writers(ctx, ck, rule_rows='R-EXH.accumulate', rule_cols='R-SIB.polarisations'):
+    m = ctx.model
+    # row writers: one row per entry of the flattened angle grid; the columns are, in this order,
+    # zenith, azimuth and the stacked gain columns (vertical, horizontal, total) resp. magnitude and
+    # phase of E_theta then E_phi.  Decided on the symbolic walk (any loop / comprehension / helper form).
+    from ..symx import SymExec, line_exprs, canon_k, row_values
+    want_cols = {
+        'mininec.Far_Field_Pattern.db_as_mininec':
+            [('self.zen',), ('self.azi',), ('self.gain.T[0]',), ('self.gain.T[1]',), ('self.gain.T[2]',)],
+        'mininec.Far_Field_Pattern.abs_gain_as_mininec':
+            [('self.zen',), ('self.azi',), ('np.abs', 'self.e_theta'), ('np.angle', 'self.e_theta'),
+             ('np.abs', 'self.e_phi'), ('np.angle', 'self.e_phi')]}
+    for q, want_ in want_cols.items():
+        g = m.func(q)
+        rows = []
+        per_path = []
+        for p_ in SymExec(ctx, g, bind_loops=True).run():
+            if p_.end == 'raise':
+                continue
+            ent = [t_ for k_, t_ in p_.conds if k_ == 'loop']
+            n_ = 0
+            for e_, st_, it_ in line_exprs(p_, with_iter=True):
+                if row_values(e_) is None:
+                    continue
+                src = norm(it_) if it_ is not None else (ent[-1] if ent else None)
+                rows.append((e_, st_, src))
+                n_ += 1
+            skipped = any(k_ == 'loop-skipped' for k_, t_ in p_.conds)
+            per_path.append((n_, 0 if (skipped and not ent) else 1, p_.conds))
+        badp = [x_ for x_ in per_path if x_[0] != x_[1]]
+        ck.ob(rule_rows, q + '|rows-per-entry', not badp, g.loc(),
+              'exactly one row per grid entry on every path' if not badp else
+              '%d rows instead of %d for an entry on the path %s' % (badp[0][0], badp[0][1], [c_ for c_ in badp[0][2] if c_[0] != 'loop']))
+        ck.floor('row expressions in ' + q, len(rows), 1)
+        for e_, st_, src in rows:
+            vals = [canon_k(norm(v_)) for v_ in row_values(e_)]
+            ok = len(vals) == len(want_)
+            if ok:
+                for v_, w_ in zip(vals, want_):
+                    ok = ok and all(x_ in v_ for x_ in w_) and v_.endswith('[_k0]')
+                    if len(w_) == 1:
+                        ok = ok and v_ == w_[0] + '[_k0]'
+            flat_ok = src is not None and src.startswith('zip(') and src.count('.flat') == len(want_)
+            ck.ob(rule_rows, q + '|one-row-per-entry', ok and flat_ok, g.loc(st_),
+                  'row per entry of zip of %d flattened arrays, columns %s' % (len(want_), vals) if ok and flat_ok else
+                  'row columns %s over %s; expected %s over the flattened grid' % (vals, src, want_))
+            if q.endswith('db_as_mininec'):
+                ck.ob(rule_cols, q + '|three-columns', ok, g.loc(st_),
+                      'gain columns printed in stacking order (vertical, horizontal, total)' if ok else
+                      'gain columns printed as %s' % vals[2:])
+
+
 def run(ctx, ck):
     m = ctx.model
     ck.rule('R-DEP.dbi-normalised', 'dBi depends on total source power and currents, not on requested power/distance')
@@ -443,54 +495,7 @@ def run(ctx, ck):
                 mn, mx = loop_reaches_on_all_paths(gfl_, il, is_acc)
                 ck.ob('R-EXH.accumulate', g_.qual + '|accumulate-per-(image,azimuth)', (mn, mx) == (1, 1),
                       g_.loc(il), 'accumulations per iteration: min %s max %s' % (mn, mx))
-    # row writers: one row per entry of the flattened angle grid; the columns are, in this order,
-    # zenith, azimuth and the stacked gain columns (vertical, horizontal, total) resp. magnitude and
-    # phase of E_theta then E_phi.  Decided on the symbolic walk (any loop / comprehension / helper form).
-    from ..symx import SymExec, line_exprs, canon_k, row_values
-    want_cols = {
-        'mininec.Far_Field_Pattern.db_as_mininec':
-            [('self.zen',), ('self.azi',), ('self.gain.T[0]',), ('self.gain.T[1]',), ('self.gain.T[2]',)],
-        'mininec.Far_Field_Pattern.abs_gain_as_mininec':
-            [('self.zen',), ('self.azi',), ('np.abs', 'self.e_theta'), ('np.angle', 'self.e_theta'),
-             ('np.abs', 'self.e_phi'), ('np.angle', 'self.e_phi')]}
-    for q, want_ in want_cols.items():
-        g = m.func(q)
-        rows = []
-        per_path = []
-        for p_ in SymExec(ctx, g, bind_loops=True).run():
-            if p_.end == 'raise':
-                continue
-            ent = [t_ for k_, t_ in p_.conds if k_ == 'loop']
-            n_ = 0
-            for e_, st_, it_ in line_exprs(p_, with_iter=True):
-                if row_values(e_) is None:
-                    continue
-                src = norm(it_) if it_ is not None else (ent[-1] if ent else None)
-                rows.append((e_, st_, src))
-                n_ += 1
-            skipped = any(k_ == 'loop-skipped' for k_, t_ in p_.conds)
-            per_path.append((n_, 0 if (skipped and not ent) else 1, p_.conds))
-        badp = [x_ for x_ in per_path if x_[0] != x_[1]]
-        ck.ob('R-EXH.accumulate', q + '|rows-per-entry', not badp, g.loc(),
-              'exactly one row per grid entry on every path' if not badp else
-              '%d rows instead of %d for an entry on the path %s' % (badp[0][0], badp[0][1], [c_ for c_ in badp[0][2] if c_[0] != 'loop']))
-        ck.floor('row expressions in ' + q, len(rows), 1)
-        for e_, st_, src in rows:
-            vals = [canon_k(norm(v_)) for v_ in row_values(e_)]
-            ok = len(vals) == len(want_)
-            if ok:
-                for v_, w_ in zip(vals, want_):
-                    ok = ok and all(x_ in v_ for x_ in w_) and v_.endswith('[_k0]')
-                    if len(w_) == 1:
-                        ok = ok and v_ == w_[0] + '[_k0]'
-            flat_ok = src is not None and src.startswith('zip(') and src.count('.flat') == len(want_)
-            ck.ob('R-EXH.accumulate', q + '|one-row-per-entry', ok and flat_ok, g.loc(st_),
-                  'row per entry of zip of %d flattened arrays, columns %s' % (len(want_), vals) if ok and flat_ok else
-                  'row columns %s over %s; expected %s over the flattened grid' % (vals, src, want_))
-            if q.endswith('db_as_mininec'):
-                ck.ob('R-SIB.polarisations', q + '|three-columns', ok, g.loc(st_),
-                      'gain columns printed in stacking order (vertical, horizontal, total)' if ok else
-                      'gain columns printed as %s' % vals[2:])
+    check_row_writers(ctx, ck)
     # ---------------------------------------------------------------- direction vectors
     # rvec = r_hat + 1j * theta_hat, vv = phi_hat: an orthonormal triad for every direction
     # (symbolic: polynomial identities in cos/sin of the two angles, sin^2 = 1 - cos^2)
